@@ -806,9 +806,12 @@ SUBCHECKS.append(Sub('realsock', strategy=g_real, oracle=oracle_real,
                      budget=(80, 600)))
 
 EXTRA_COVERAGE = {
+    # measured: histories run on the real listener over loopback in this run
     'traces_validated_against_impl':
-        'sub-check realsock (see subchecks.realsock.evaluations): delivery/'
-        'refusal/stop/restart invariants on the real listener over loopback',
+        lambda persub: int(persub.get('realsock', {}).get('evaluations', 0)),
+    'traces_note':
+        'sub-check realsock: delivery/refusal/stop/restart invariants on the '
+        'real listener (real threads and sockets) over loopback',
 }
 
 # mutation of pywbem/_listener.py (one at a time, scratch worktree, quick
